@@ -292,7 +292,10 @@ Return(i) ==
     /\ UNCHANGED <<ring, rnil, clock, file, kvok, cfg, okSince, bud>>
 
 (******************************* readiness *******************************)
-Healthy(e) == clock - e.ts <= HbTimeout
+\* Time abstraction: the code compares its real-valued now with timestamps truncated to seconds, and no
+\* step happens exactly on a second boundary, so "now - ts <= P" reads "clock - ts < P" in whole seconds
+\* and "now - ts > P" reads "clock - ts >= P".
+Healthy(e) == clock - e.ts < HbTimeout
 ReadyCond(i) ==
     /\ L[i].toks # {} /\ kvok[i] /\ ~rnil
     /\ IF cfg[i].health
